@@ -763,7 +763,10 @@ def run_grad(case):
                 try:
                     gm = obj.sensitivity(u0[:r], method=m)
                     tags.append("method:" + m)
-                    compare("sensitivity(method=%s)/reference-cost" % m, gm, g_ref, g_err, refine=refine_grad(False))
+                    # a named integrator steps across the kinks of a time-windowed rate at its own error control: vode was seen
+                    # 1.4e-4 off on a late-step window (thorough tier, seed 11) while the default method is within 1e-6
+                    compare("sensitivity(method=%s)/reference-cost" % m, gm, g_ref, g_err, refine=refine_grad(False),
+                            rel=(1e-3 if s["model"].get("src") == "td" else 1e-4))
                 except Exception as exc:
                     viol.append({"what": "sensitivity(method=%s) of %sLoss raised %s: %s" % (m, cls, type(exc).__name__, str(exc)[:200]),
                                  "signature": "sensitivity-method:%s:%sLoss:raises:%s" % (m, cls, type(exc).__name__), "detail": ""})
